@@ -35,7 +35,7 @@ func (l *UnwrapAggPlanner) addValue(ctx *shared.PlannerContext, entry *shared.Lo
 			stream.values[idx+1] = 1
 		}
 	case "min_over_time":
-		if stream.values[idx] < entry.Value || stream.values[idx+1] == 0 {
+		if stream.values[idx] > entry.Value || stream.values[idx+1] == 0 {
 			stream.values[idx] = entry.Value
 			stream.values[idx+1] = 1
 		}
